@@ -140,6 +140,11 @@ class C17(Prop):
     def gen(self, rng, i, tier):
         loopy = rng.random() < 0.65
         nodes, rows, motifs = gen_network(rng, rng.randint(2, 4 if tier == "quick" else 6), loopy)
+        if i % 3 == 1:
+            # vertices that belong to no motif (degree zero): they count in the vertex average with an empty product
+            extra = [max(nodes) + 1 + k for k in range(rng.randint(1, 3))]
+            nodes = list(nodes) + extra
+            rng.shuffle(nodes)
         q = rng.choice([4, 5, 10])
         phis = sorted({Fraction(0), Fraction(rng.randint(1, q - 1), q), Fraction(rng.randint(1, q), q), Fraction(rng.randint(1, q), q)})
         order = list(range(len(phis)))
